@@ -289,6 +289,13 @@ def operations(st):
                 ops.append(['add_edge', u, v])
         hi_u, hi_v = L + 1, Rr + 1
         pool_u, pool_v = range(0, L + 2), range(0, Rr + 2)
+    # numbers that are no vertices although they lie inside the range (the
+    # property quantifies over arbitrary invalid arguments; seeded change
+    # C16-s23 and the defect repaired by the fix commit of section 8)
+    if st.kind != 'cbg':
+        for a, b in ((1.5, 2), (1, 2.5), (2.5, 1), (1.5, 1.5), (0.5, 1), (1, hi_v + 0.5)):
+            # (numbers equal to an integer, 2.0, are left out: whether they name vertex 2 is not stated)
+            ops.append(['add_edge', a, b])
     if st.afe != 'none':
         firsts = [(u, v) for u in pool_u for v in pool_v]
         if st.afe == 'few':
@@ -324,7 +331,10 @@ def _container(edges, form):
 
 # ------------------------------------------------------- reference semantics --
 def edge_class(st, u, v):
-    """'out-of-range' | 'self-loop' | 'legal' for an insertion request."""
+    """'not-an-integer' | 'out-of-range' | 'self-loop' | 'legal' for an
+    insertion request."""
+    if type(u) is not int or type(v) is not int:
+        return 'not-an-integer'
     if st.kind in ('simple', 'directed'):
         n = st.dims[0]
         if not (1 <= u <= n and 1 <= v <= n):
@@ -372,6 +382,10 @@ def apply(st, op):
     def judge(argclass, exc, must_refuse, may_refuse, model_changes):
         """must_refuse: ValueError required; may_refuse: ValueError tolerated."""
         fam = '%s.%s:%s' % (cname, name, argclass)
+        if argclass == 'not-an-integer' and isinstance(exc, TypeError):
+            # a number that is no vertex at all: TypeError refuses it as well
+            # as ValueError does; what matters is "without side effect"
+            exc = ValueError(str(exc))
         if exc is not None and not isinstance(exc, ValueError):
             problems.append((fam + ':exception:' + type(exc).__name__,
                              '%s%r raised %s(%s) (only ValueError may refuse a request)'
